@@ -5,6 +5,7 @@ import life
 import comm
 import spawn
 import builder
+import pipeline
 
 CHECKS = {
     "C20": c20.check,
@@ -21,6 +22,9 @@ CHECKS = {
     "C17": spawn.check,
     "C18": spawn.check,
     "C16": builder.check,
+    "C12": pipeline.check,
+    "C13": pipeline.check,
+    "C14": pipeline.check,
     "C09": life.check,
     "C10": life.check,
     "C11": life.check,
